@@ -399,7 +399,7 @@ package thrift
 //@   props C02, C03, C08, C17
 //@   let L = int(e - uintptr(p))
 //@   requires uintptr(p) <= e && 0 <= L && L <= avail(p) && region(p) != 0
-//@   let R = vs.StrLen(bytes(p, L))
+//@   let R = vs.StrLen(bytesat(p, L))
 //@   ensures skipResult(R, ret0, ret1)
 //@   ensures ret1 == nil ==> 4 <= ret0 && ret0 <= L
 
@@ -414,7 +414,7 @@ package thrift
 //@   arith int
 //@   props C02, C03, C08, C17
 //@   let L = int(e - uintptr(p))
-//@   let B = bytes(p, L)
+//@   let B = bytesat(p, L)
 //@   requires uintptr(p) <= e && 0 <= L && L <= avail(p) && region(p) != 0 && 0 <= maxdepth && maxdepth <= 64
 //@   let R = maxdepth == 0 ? -3 : vs.ValLenD(B, t, maxdepth)
 //@   hint vs.LemmaFixedElems(B[5:], int8(B[0]), int(int32(vs.BE32(B, 1))), maxdepth)
@@ -799,3 +799,49 @@ package thrift
 //@   loop 3 invariant[g:hi] vs.FieldsLenD(U, maxdepth) == vs.Then(rdUsed(r.r), vs.FieldsLenD(r.r.$u, maxdepth))
 //@   loop 3 invariant[g:lo] maxdepth > 1 && vs.FieldsLenD(U, maxdepth - 1) != -3 ==> vs.FieldsLenD(U, maxdepth - 1) == vs.Then(rdUsed(r.r), vs.FieldsLenD(r.r.$u, maxdepth - 1))
 //@   loop 3 decreases len(r.r.$u)
+
+// ---- exception helpers ----
+
+//@ iface tException.Error
+//@   results s
+//@   ensures same(s, self.$errtext)
+//@   assigns \nothing
+
+//@ iface tException.TypeId
+//@   results id
+//@   ensures id == self.$typeid
+//@   assigns \nothing
+
+
+//@ func ApplicationException.Error
+//@   props C18
+//@   ensures e.m != "" ==> same(ret, e.m)
+
+//@ func NewProtocolExceptionWithErr
+//@   props C17, C18
+//@   requires !isnil(err)
+//@   ensures istype(err, *ProtocolException) ==> ret == astype(err, *ProtocolException)
+//@   ensures !istype(err, *ProtocolException) ==> fresh(ret) && ret.t == 0 && same(ret.err, err) && ret.m == err.$errtext
+
+//@ func ProtocolException.Unwrap
+//@   props C18
+//@   ensures same(ret, e.err)
+
+//@ func ProtocolException.Is
+//@   props C18
+//@   ensures istype(err, tException) && err.$typeid == e.t && err.$errtext == e.m ==> ret
+//@   ensures !(istype(err, tException) && err.$typeid == e.t && err.$errtext == e.m) ==> ret == ufbool("errors.Is", e.err, err)
+
+//@ func PrependError
+//@   arith int
+//@   props C18
+//@   requires !isnil(err) && region(err) != 0
+//@   ensures istype(err, *TransportException) ==> istype(ret, *TransportException) && astype(ret, *TransportException).t == astype(err, *TransportException).t
+//@   ensures istype(err, *TransportException) && astype(err, *TransportException).m != "" ==> astype(ret, *TransportException).m == prepend + astype(err, *TransportException).m
+//@   ensures istype(err, *ProtocolException) ==> istype(ret, *ProtocolException) && astype(ret, *ProtocolException).t == astype(err, *ProtocolException).t && astype(ret, *ProtocolException).m == prepend + err.$errtext
+//@   ensures istype(err, *ApplicationException) ==> istype(ret, *ApplicationException) && astype(ret, *ApplicationException).t == astype(err, *ApplicationException).t
+//@   ensures istype(err, *ApplicationException) && astype(err, *ApplicationException).m != "" ==> astype(ret, *ApplicationException).m == prepend + astype(err, *ApplicationException).m
+//@   ensures !istype(err, *TransportException) && !istype(err, *ProtocolException) && !istype(err, *ApplicationException) && istype(err, tException) ==>
+//@           istype(ret, *ApplicationException) && astype(ret, *ApplicationException).t == err.$typeid && astype(ret, *ApplicationException).m == prepend + err.$errtext
+//@   ensures !istype(err, *TransportException) && !istype(err, *ProtocolException) && !istype(err, *ApplicationException) && !istype(err, tException) ==>
+//@           !istype(ret, *TransportException) && !istype(ret, *ProtocolException) && !istype(ret, *ApplicationException) && !istype(ret, tException) && ret.$errtext == prepend + err.$errtext
